@@ -138,28 +138,40 @@ def matcher_sequence(matcher):
 # ---------------------------------------------------------------------------------------------
 # documents
 
-ATTR_MEDIA = ['print', 'screen', 'all', 'screen, print', '', 'speech', ' print ', 'screen,speech', 'tv, all']
+ATTR_MEDIA = ['print', 'screen', 'all', 'screen, print', '', 'speech', ' print ', 'screen,speech', 'tv, all',
+              'PRINT', 'Print', 'SCREEN', 'Screen, PRINT', 'ALL', ' All ', 'screen ,Print', 'tv,,print', ',', 'print,',
+              '\tprint', 'pr int', 'SPEECH,TV']
 
 
 def attr_media(text):
-    """The media list `find_stylesheets` derives from a media attribute (string split, not modelled)."""
-    return [m.strip() for m in (text.strip() or 'all').split(',')]
+    """The media list of a media attribute as HTML / media queries define it (comma-separated, ASCII
+    case-insensitive media types): used by the oracle.  The model derives its own list from the raw text
+    (`StyleDoc.attrMedia`, mirror of the three lines of `find_stylesheets`)."""
+    return [m.strip().lower() for m in (text.strip() or 'all').split(',')]
+
+
+def w_attr_media(text):
+    """The raw attribute text on the wire: (attr <code point> ...)."""
+    return ['attr'] + [ord(c) for c in text]
 
 
 TAGS = ['div', 'p', 'span', 'section', 'article', 'div', 'p']
 DECLS = {
     'color': ['red', 'blue', 'green', 'inherit', 'initial', 'currentcolor'],
     'font-size': ['10px', '20px', '1.5em', '2rem', '150%', '50%', 'larger', 'smaller', 'small', 'x-large', 'inherit',
-                  'initial', '0.5in', '12pt', '0.75em', '1cm', '5mm', '1pc', 'xx-small', 'large'],
+                  'initial', '0.5in', '12pt', '0.75em', '1cm', '5mm', '1pc', 'xx-small', 'large', '2ex', '1.5ch'],
     'font-weight': ['normal', 'bold', 'bolder', 'lighter', '100', '500', '900', 'inherit', 'initial'],
-    'width': ['auto', '10px', '2em', '50%', '1rem', 'inherit', 'initial', '1in', '0', '2cm', '15mm', '40q', '6pt'],
-    'margin-left': ['auto', '4px', '1.5em', '25%', '-1rem', 'inherit'],
+    'width': ['auto', '10px', '2em', '50%', '1rem', 'inherit', 'initial', '1in', '0', '2cm', '15mm', '40q', '6pt',
+              '3ex', '2ch', '0.5ch'],
+    'margin-left': ['auto', '4px', '1.5em', '25%', '-1rem', 'inherit', '2ex', '1ch'],
+    'font-family': ['DejaVu Sans', 'DejaVu Serif', 'DejaVu Sans Mono', 'monospace', 'inherit'],
+    'font-style': ['normal', 'italic'],
     'margin': ['1px 2px', '1em', 'auto', '0 auto 1rem'],
     'padding-top': ['0', '4px', '1em', '12.5%'],
-    'text-indent': ['8px', '2em', '1rem', '50%', 'inherit', 'initial'],
+    'text-indent': ['8px', '2em', '1rem', '50%', 'inherit', 'initial', '1.5ex', '2ch'],
     'letter-spacing': ['normal', '2px', '0.25em', 'inherit'],
     'word-spacing': ['normal', '4px', '0.5em'],
-    'line-height': ['normal', '1.5', '2', '150%', '20px', '2em', 'inherit'],
+    'line-height': ['normal', '1.5', '2', '150%', '20px', '2em', 'inherit', '3ex'],
     'border-top-width': ['thin', 'medium', 'thick', '2px', '0.5em', 'inherit'],
     'border-top-style': ['none', 'solid', 'hidden', 'dotted', 'inherit'],
     'border-top': ['2px solid red', 'thick dotted', 'none', '1em double'],
@@ -194,7 +206,7 @@ DECLS = {
     'transform-origin': ['1em 2em', 'left top', '50% 50% 2px'],
     'background-size': ['auto', 'cover', '1em auto, contain', '50% 2rem'],
     'border-image-slice': ['10', '10 20% fill', '1 2 3 4'],
-    'border-image-width': ['1', 'auto', '2 10% auto'],
+    'border-image-width': ['1', 'auto', '2 10% auto', '2em', '1ex 2ch', '3pt 1rem 0'],
     'border-image-outset': ['0', '1 2px', '0.5em'],
     'border-image-repeat': ['stretch', 'round space'],
     'transform': ['none', 'translate(1em, 2px)', 'translate(10%) scale(2)'],
@@ -202,6 +214,11 @@ DECLS = {
     'string-set': ['none', 'a content(text)', 'b "x" attr(id)'],
     'clip': ['auto', 'rect(1px, auto, 1em, 2px)'],
     '-weasy-lang': ['none', '"fr"', 'attr(lang)'],
+    'grid-template-columns': ['none', '1fr 2em', '[a] 10px [b c] minmax(1em, 1fr)', 'repeat(2, 1em auto)', 'fit-content(2rem) auto',
+                              'minmax(min-content, 2em) 10%', 'repeat(auto-fill, minmax(3em, 1fr))'],
+    'grid-template-rows': ['none', '2em', '[r] 1em [s] 2rem', 'subgrid'],
+    'grid-auto-rows': ['auto', '2em', 'minmax(1em, auto) 3rem', 'fit-content(1em)', 'min-content 1fr'],
+    'grid-auto-columns': ['auto', '1.5em 10px'],
 }
 # keys read on every element whatever the declarations
 ALWAYS_KEYS = ['color', 'font_size', 'font_weight', 'width', 'text_indent', 'line_height', 'display', 'float',
@@ -386,8 +403,18 @@ def w_decl(name, value, important):
     return [name, ['val', enc(value)], bool(important)]
 
 
-def model_input(doc, html):
-    """The model's view of the document: (doc s-expression, {element id: element s-expression}, paths)."""
+EX_CH = __import__('re').compile(r'[0-9.](ex|ch)\b')
+
+
+def uses_ex_ch(doc):
+    texts = [decls for _, decls in doc['styles'].values()] + [e['style'] for e in doc['elements'] if e['style']]
+    return any(EX_CH.search(t) for t in texts)
+
+
+def model_input(doc, html, observed=None):
+    """The model's view of the document: (doc s-expression, {element id: element s-expression}, paths).
+    observed: {(element key, pseudo): (style, where)}; when the document uses ex / ch lengths every element carries
+    the character ratios of its own style, measured on an empty cache (Pango is a parameter of the model)."""
     import cssselect2
     from weasyprint.css.utils import Pending
     from weasyprint.html import HTML5_PH_STYLESHEET
@@ -423,7 +450,8 @@ def model_input(doc, html):
         nsel[rid] = len(selectors)
     for sheet in doc['sheets']:
         index = len(sheets_w)
-        sheets_w.append([sheet['kind'], opt(sheet['media']) if sheet['kind'] == 'author' else 'none',
+        sheets_w.append([sheet['kind'], 'none' if sheet['kind'] != 'author' or sheet['media_text'] is None
+                         else w_attr_media(sheet['media_text']),
                          rule_tree_wire(sheet['tree'], nsel)] + ([sheet_elem_wire(sheet)] if sheet['kind'] == 'author' else []))
         for rid in style_ids_of(sheet['tree']):
             selectors, _ = doc['styles'][str(rid)]
@@ -431,6 +459,10 @@ def model_input(doc, html):
                 add_hits(index, rid, j, selector.test, selector.specificity, selector.pseudo_element)
     doc_w = [doc['device'], doc['ph'], sheets_w, rule_decls]
     elems_w = {}
+    ratios = None
+    if observed is not None and uses_ex_ch(doc):
+        from harness.c06_real import Ratios
+        ratios = Ratios()
     for key in wrappers:
         blocks = []
         el = next((e for e in doc['elements'] if e['id'] == key), None)
@@ -442,7 +474,17 @@ def model_input(doc, html):
                 blocks.append([[0, 0, 0, 0], [w_decl(*d) for d in declarations_of(f'text-align:{align}')]])
         elems_w[key] = [blocks, hits[key], [[k, enc(v)] for k, v in wrappers[key].etree_element.attrib.items()
                                             if k in ('id', 'lang', 'title', 'name')]]
+        if ratios is not None and (key, None) in observed:
+            elems_w[key].append(['%', *ratios.of(observed[(key, None)][0])])
     return doc_w, elems_w
+
+
+def pseudo_ratios(doc, style):
+    """The (ex, ch) arguments of `docstyle`: the ratios of the pseudo-element's own style."""
+    if uses_ex_ch(doc):
+        from harness.c06_real import Ratios
+        return Ratios().of(style)
+    return Fraction(1, 2), Fraction(1, 2)
 
 
 def sheet_elem_wire(sheet):
@@ -535,7 +577,7 @@ def document_section(run):
         'the key is inherited')
     from weasyprint.css.properties import INHERITED
     done = 0
-    for _ in range(run.n(260, 5000)):
+    for _ in range(run.n(220, 4000)):
         doc = random_document(run.rng)
         try:
             html, style_for, pages, _, _ = run_pipeline(doc)
@@ -543,19 +585,20 @@ def document_section(run):
             run.notes.append(f'document pipeline raised {type(exc).__name__}: {exc}; doc={json.dumps(doc)[:300]}')
             continue
         done += 1
-        doc_w, elems_w = model_input(doc, html)
-        keys = declared_keys(doc)
         observed = observed_styles(doc, html, style_for, pages)
+        doc_w, elems_w = model_input(doc, html, observed)
+        keys = declared_keys(doc)
         for (key, pseudo), (style, where) in sorted(observed.items(), key=str):
             path = path_of(doc, key)
             out = ' '.join(f'{k}=' + outcome(lambda: style[k]) for k in keys)
             cascaded = getattr(style, 'cascaded', {})
-            sec.add(sx.line('docstyle', doc_w, Fraction(1, 2), Fraction(1, 2), [elems_w[p] for p in path], opt(pseudo), keys),
+            ex, ch = pseudo_ratios(doc, style) if pseudo else (Fraction(1, 2), Fraction(1, 2))
+            sec.add(sx.line('docstyle', doc_w, ex, ch, [elems_w[p] for p in path], opt(pseudo), keys),
                     out, meta={'doc': doc, 'element': key, 'pseudo': pseudo, 'keys': keys,
                                'signature': f'doc:{key}:{pseudo}:{hash(out) % 10 ** 8}'},
                     nontrivial=any(k in cascaded or k in INHERITED for k in keys),
                     tags=[where, f'depth{len(path)}', 'pseudo' if pseudo else 'element',
-                          f'cascaded{min(len(cascaded), 9)}'])
+                          f'cascaded{min(len(cascaded), 9)}'] + (['ex-ch'] if len(elems_w[path[0]]) == 4 else []))
     run.extra['documents_rendered'] = done
     sec.flush()
 
@@ -733,8 +776,9 @@ def oracle_flatten(tree, device, allow_imports=True):
     return out
 
 
-def oracle_styles(doc, html, rank, reference_winner):
-    """{(element key, None): {key: expected value}} for ORACLE_KEYS on the generated elements."""
+def oracle_styles(doc, html, rank, reference_winner, observed=None):
+    """{(element key, None): {key: expected value}} for ORACLE_KEYS on the generated elements.
+    observed: the real styles, used only to ask Pango (on an empty cache) for the ex / ch ratios of an element's font."""
     import cssselect2
     from weasyprint.css.properties import Dimension
     INHERITED, INITIAL_VALUES = SPEC_INHERITED, SPEC_INITIAL
@@ -826,6 +870,10 @@ def oracle_styles(doc, html, rank, reference_winner):
                 px = v.value * computed('@html', 'font_size')
             elif v.unit in LENGTHS_TO_PIXELS:
                 px = v.value * LENGTHS_TO_PIXELS[v.unit]
+            elif v.unit in ('ex', 'ch') and observed is not None and key in observed:
+                # css-values: 1ex = the x-height, 1ch = the advance of "0", of the element's own font
+                from harness.c06_real import fresh_ratio
+                px = v.value * computed(key, 'font_size') * fresh_ratio(observed[key][0], 'x' if v.unit == 'ex' else '0')
             else:
                 return v
             return px if pixels else Dimension(px, 'px')
@@ -865,6 +913,12 @@ def oracle_styles(doc, html, rank, reference_winner):
                 result = value.value * base
             elif value.unit == 'rem':
                 result = value.value * (computed('@html', 'font_size') if parent else INITIAL_VALUES['font_size'])
+            elif value.unit in ('ex', 'ch'):
+                if observed is None or key not in observed:
+                    result = None
+                else:
+                    from harness.c06_real import fresh_ratio
+                    result = value.value * base * fresh_ratio(observed[key][0], 'x' if value.unit == 'ex' else '0')
             else:
                 result = value.value * LENGTHS_TO_PIXELS[value.unit]
         elif name == 'font_weight':
@@ -882,21 +936,14 @@ def oracle_styles(doc, html, rank, reference_winner):
                 result = ('PIXELS', value.value / 100 * computed(key, 'font_size'))
             elif value.unit == 'em':
                 result = ('PIXELS', value.value * computed(key, 'font_size'))
+            elif value.unit in ('ex', 'ch'):
+                result = ('PIXELS', olen(value, pixels=True)) if value.value else ('PIXELS', 0)
             elif value.unit == 'rem':
                 result = ('PIXELS', value.value * computed('@html', 'font_size'))
             else:
                 result = ('PIXELS', value.value * LENGTHS_TO_PIXELS[value.unit])
         elif name in ('width', 'text_indent', 'margin_left') and isinstance(value, Dimension):
-            if value.value == 0:
-                result = Dimension(0, 'px')
-            elif value.unit == 'em':
-                result = Dimension(value.value * computed(key, 'font_size'), 'px')
-            elif value.unit == 'rem':
-                result = Dimension(value.value * computed('@html', 'font_size'), 'px')
-            elif value.unit in LENGTHS_TO_PIXELS:
-                result = Dimension(value.value * LENGTHS_TO_PIXELS[value.unit], 'px')
-            else:
-                result = value
+            result = olen(value)
         elif name == 'break_before':
             result = 'page' if value == 'always' else value
         elif name == 'border_top_width':
@@ -966,8 +1013,8 @@ def document_violation(doc, rank, reference_winner):
         UNRELATED_CRASHES.append(f'{type(exc).__name__}: {exc}')
         CRASH_DOCS.append(doc)
         return None
-    want = oracle_styles(doc, html, rank, reference_winner)
     observed = observed_styles(doc, html, style_for, pages)
+    want = oracle_styles(doc, html, rank, reference_winner, observed)
     for (key, pseudo), (style, where) in sorted(observed.items(), key=str):
         if (key, pseudo) not in want:
             continue
@@ -1015,6 +1062,17 @@ def judge(d, reference_winner, reference_page_match, rank):
     impl = d['impl']
     if section == 'all-properties':
         return judge_all_properties(meta, impl)
+    if section == 'regressions':
+        from harness.c06_real import judge_regression
+        return judge_regression(meta, impl)
+    if section == 'character-ratio-cache':
+        from harness.c06_real import judge_ratio
+        return judge_ratio(meta, impl)
+    if section == 'var-documents':
+        from harness.c06_real import ex_ch_violation
+        if meta.get('crash'):
+            return f'computing the styles of {meta["html"]} raised {meta["crash"]}' if meta.get('css_related') else None
+        return ex_ch_violation(meta['html'])
     if section == 'declaration-precedence':
         key = (meta['origin'], meta['importance'])
         if key in rank and impl != str(rank[key]):
@@ -1096,6 +1154,25 @@ def judge_computed(meta, impl):
         want = 'kw:inhibit' if value == "('none',)" or meta.get('pseudo') else 'kw:contents'
         if impl != want:
             return f'content {value} on {"a pseudo-element" if meta.get("pseudo") else "an element"} computes to {impl}, not {want}'
+    if fn == 'font_weight' and value in ("'bolder'", "'lighter'") and 'parent_weight' in meta:
+        # css-fonts-3 §3.2: relative weights against the inherited weight (400 on the root)
+        parent = 400 if meta['parent_weight'] is None else meta['parent_weight']
+        want = SPEC_FONT_WEIGHT[value.strip("'")].get(parent) if isinstance(parent, int) else None
+        if want is not None and impl != f'num:{want}':
+            return (f'font-weight: {value.strip(chr(39))} with an inherited weight of {parent} computes to {impl}; '
+                    f'CSS gives {want}')
+    if fn == 'border_image_width' and impl.startswith('tup['):
+        # css-backgrounds-3: a <length> item computes to an absolute length (px), numbers / percentages / auto are kept
+        for side in impl[4:-1].split('|'):
+            parts = side.split(':')
+            if parts[0] == 'dim' and parts[2] not in ('px', '%'):
+                return f'{meta.get("key")}: {value} computes to {impl}: the length {side} is not computed to px'
+    if fn in ('grid_template', 'grid_auto') and impl.startswith(('tup[', 'strs:')):
+        # css-grid-1 §7.2: a <length> track size computes to an absolute length; fr / % / keywords are kept
+        import re
+        left = re.findall(r'dim:[-0-9/]+:(em|rem|ex|ch|pt|pc|in|cm|mm|q)\b', impl)
+        if left:
+            return f'{meta.get("key")}: {value} computes to {impl}: a track size in {left[0]} is not computed to px'
     if fn == 'font_weight' and value in ("'normal'", "'bold'"):
         want = {"'normal'": 'num:400', "'bold'": 'num:700'}[value]
         if impl != want:
@@ -1177,6 +1254,13 @@ def search(run, failures, reference_winner):
             what, case = page_document_violation(run.rng, reference_winner)
             if what:
                 found.append({'what': what, 'input': case, 'signature': what[:80]})
+        if run.search_stats['evaluations'] % 2 == 0:
+            from harness import c06_real
+            text = c06_real.var_document(run.rng)
+            what = c06_real.ex_ch_violation(text)
+            if what:
+                found.append({'what': what, 'input': {'meta': {'html': text}, 'html': text, 'section': 'var-documents'},
+                              'signature': what[:80]})
     return found
 
 
@@ -1187,6 +1271,24 @@ def replay(data, reference_winner, reference_page_match, rank):
     section = inp.get('section')
     if 'doc' in meta:
         return document_violation(meta['doc'], rank, reference_winner)
+    if section == 'regressions':
+        from harness import c06_real
+        _, out = c06_real.run_case(meta['case'])
+        return c06_real.judge_regression(meta, out)
+    if section == 'character-ratio-cache':
+        from harness import c06_real
+        return c06_real.replay_ratio(meta)
+    if section in ('var-documents', 'ex-ch-documents'):
+        from harness import c06_real
+        return c06_real.ex_ch_violation(meta['html'])
+    if section == 'computed-values' and meta.get('fn') == 'font_weight' and isinstance(meta.get('parent_weight', ''), (int, type(None))):
+        from weasyprint.css import computed_values as cv
+        from props.c06 import FakeStyle
+        parent = None if meta['parent_weight'] is None else {'font_weight': meta['parent_weight']}
+        style = FakeStyle({}, parent_style=parent, root_style={'font_size': 16})
+        value = eval(meta['value'], {})     # noqa: S307 - repr of a generated keyword / integer
+        out = outcome(lambda: cv.font_weight(style, 'font_weight', value))
+        return judge_computed(meta, out)
     if section == 'pages':
         return page_case_violation(inp, reference_winner)
     if section == 'page-type-match':
@@ -1210,42 +1312,10 @@ def replay(data, reference_winner, reference_page_match, rank):
     return None
 
 
-def replay_var_inherit_on_root():
-    """known finding: `inherit` reached through var() on the root element."""
-    try:
-        docs.render('<html style="--x:inherit;width:var(--x)"><body><p>x</p></body></html>')
-    except TypeError:
-        return True
-    return False
-
-
 def replay_inherit_skips_computing():
     """known finding: an inherited value is stored without applying the computing function."""
     doc = docs.render('<body><div style="border-top:5px solid"><p id=x style="border-top-width:inherit">a</p></div>')
     for box in doc.pages[0]._page_box.descendants():
         if box.element_tag == 'p' and box.element is not None and box.element.get('id') == 'x':
             return box.style['border_top_style'] == 'none' and box.style['border_top_width'] != 0
-    return False
-
-
-def replay_media_attr_case():
-    """known finding: the media attribute of <style>/<link> is compared case-sensitively."""
-    def color(html):
-        doc = docs.render(html)
-        for box in doc.pages[0]._page_box.descendants():
-            if box.element_tag == 'p':
-                return box.style['color']
-    upper = color('<style media="PRINT">p{color:red}</style><p>a</p>')
-    lower = color('<style media="print">p{color:red}</style><p>a</p>')
-    at_media = color('<style>@media PRINT{p{color:red}}</style><p>a</p>')
-    return lower == at_media and upper != lower
-
-
-def replay_border_image_width():
-    """known finding: border-image-width lengths are not computed (em stays em; drawing asserts px)."""
-    doc = docs.render('<p style="font-size:10px;border:4px solid;border-image-width:2em">a</p>')
-    for box in doc.pages[0]._page_box.descendants():
-        if box.element_tag == 'p':
-            value = box.style['border_image_width'][0]
-            return getattr(value, 'unit', None) == 'em'
     return False
